@@ -204,6 +204,8 @@ class Interp:
     def operand(self, body, env, o):
         if "const" in o:
             c = o["const"]
+            if c.get("fn"):
+                return ("fnitem", mir.callee_info(c["fn"])["def"])
             ty = c["ty"].get("n") or c["ty"]["k"]
             if c.get("elems") is not None and c["ty"].get("k") == "array":
                 et = c["ty"]["t"].get("n") or c["ty"]["t"].get("k")
@@ -218,6 +220,10 @@ class Interp:
     def _deref(self, env, cur):
         if isinstance(cur, tuple) and cur[0] == "ref":
             return env.get(cur[1], ("unk", cur[1])) if isinstance(cur[1], int) else cur[1]
+        if isinstance(cur, tuple) and cur[0] == "elemref":
+            arr = env.get(cur[1])
+            if isinstance(arr, tuple) and arr[0] == "array" and cur[2] < len(arr[1]):
+                return arr[1][cur[2]]
         return ("proj", cur, "deref")
 
     def read(self, body, env, p):
@@ -260,6 +266,12 @@ class Interp:
         if not projs:
             env[base_local] = val
             return
+        if len(projs) == 1 and projs[0]["p"] == "deref" and isinstance(cur, tuple) and cur[0] == "elemref":
+            arr = env.get(cur[1])
+            if isinstance(arr, tuple) and arr[0] == "array" and cur[2] < len(arr[1]):
+                arr[1][cur[2]] = val          # `*slot = v` for a slot handed out by iter_mut()
+                return
+            raise Unsupported("store through a stale element reference")
         if len(projs) == 1 and projs[0]["p"] in ("index", "constindex") and isinstance(cur, tuple) and cur[0] == "array":
             pr = projs[0]
             if pr["p"] == "index":
@@ -552,6 +564,35 @@ class Interp:
                         raise Unsupported("conversion %s" % info["key"])
                 elif info["key"] in ("i32::wrapping_neg", "u32::wrapping_neg", "i8::wrapping_neg") and isinstance(args[0], BV):
                     res = neg(args[0])
+                elif info["key"] in ("Result<T, E>::map", "Option<T>::map") and isinstance(args[0], tuple) and args[0][0] == "variant" \
+                        and self.crate is not None and depth < 4 and isinstance(args[1], tuple) and \
+                        (args[1][0] == "fnitem" or self._closure_of(env, args[1]) is not None):
+                    # x.map(f): f applied to the payload of Ok / Some, Err / None passed through
+                    if args[0][1] not in ("Ok", "Some"):
+                        res = args[0]
+                    else:
+                        clos = self._closure_of(env, args[1])
+                        callee = self.crate.bodies.get(args[1][1] if args[1][0] == "fnitem" else clos[1])
+                        if callee is None:
+                            raise Unsupported("map with an unknown function inside a varint routine")
+                        if clos is not None:
+                            cenv = {1: ("ref", clos) if callee.locals[1]["ty"].get("k") == "ref" else clos, 2: _copyval(args[0][2][0])}
+                        else:
+                            cenv = {1: _copyval(args[0][2][0])}
+                        outs = []
+                        for ret, st2 in self._explore(callee, 0, cenv, st, depth + 1):
+                            e2 = _copyenv(env)
+                            self.write(body, e2, dest, ("variant", args[0][1], [ret]))
+                            if t["t"] is not None:
+                                outs.extend(self._explore(body, t["t"], e2, st2, depth))
+                        return outs
+                elif info["key"].split("::")[-1] == "iter_mut" and isinstance(args[0], tuple) and args[0][0] == "ref" and \
+                        isinstance(args[0][1], int) and isinstance(env.get(args[0][1]), tuple) and env[args[0][1]][0] == "array":
+                    n_ = len(env[args[0][1]][1])
+                    res = ("iter", [("elemref", args[0][1], i) for i in range(n_)], 0)
+                elif name == "Iterator::take" and isinstance(args[0], tuple) and args[0][0] == "iter" and \
+                        isinstance(args[1], BV) and args[1].is_const():
+                    res = ("iter", args[0][1][args[0][2]:args[0][2] + args[1].value()], 0)
                 elif info["key"].endswith("::leading_zeros") and isinstance(args[0], BV) and args[0].ty not in SIGNED:
                     res = ("lz", args[0])
                 elif name in ("Fn::call", "FnMut::call_mut", "FnOnce::call_once") and self._closure_of(env, args[0]) is not None \
